@@ -3,7 +3,7 @@ import Rivaas.Spec.OpenAPI
 /-
 Driver for C07. Case line:
 
-  <id> <30|31> <strict> <nenv> ENV* <nops> OP*  =>  OFF ON <metaValid> <refsResolve> <stable> <validatorAgrees> <served> <coldStart>
+  <id> <30|31> <strict> <nenv> ENV* <nops> OP*  =>  OFF ON <metaValid> <refsResolve> <stable> <validatorAgrees> <served> <coldStart> <dataIntact>
 
   ENV := <tid> S <name> <pkgPath> <n> FIELD*  |  <tid> A TY
   FIELD := F <name> <exported> <json> <validate> <query> <path> <header> <cookie> TY | E <tid>
@@ -27,7 +27,10 @@ released on a barrier call Generate with validation on, and 8 more a fresh `vali
 (meta-schema-valid) document, and none of them is rejected.
 
 The produced JSON is read *strictly* into `Doc Schema`: a member the grammar does not know makes the
-case `unparsed` (MI=0), so nothing in the document is ignored silently.
+case `unparsed` (MI=0), so nothing in the document is ignored silently — except literal DATA, which is
+skipped here and compared by the harness instead (`dataIntact`, part of MI): `x-*` members of the root,
+the info object and operations, and `example` / `examples` of a media type. Data is never a reference
+position: a `$ref` member inside it is payload.
 -/
 namespace Rivaas.DriverC07
 open Rivaas.Proto Rivaas.OpenAPI
@@ -153,6 +156,26 @@ def pObj {σ} (init : σ) (f : B → σ → M σ) : M σ := do
       go k acc'
   go n init
 
+/-- skip one JSON value (literal data) -/
+partial def pSkip : M Unit := do
+  let t ← tk
+  match t with
+  | "O" => do
+    let n ← pNat
+    for _ in [0:n] do
+      let _ ← pStr
+      pSkip
+  | "A" => do
+    let n ← pNat
+    for _ in [0:n] do
+      pSkip
+  | "S" => do let _ ← pStr; pure ()
+  | "N" => do let _ ← pStr; pure ()
+  | "T" | "F" | "Z" => pure ()
+  | _ => fail s!"unexpected JSON token {t}"
+
+def isExtKey (k : B) : Bool := hasPrefix (s "x-") k
+
 def pJStr : M B := do
   let t ← tk
   if t != "S" then fail s!"expected a string value, got {t}"
@@ -218,8 +241,9 @@ def pContent : M (Option Schema) := do
     if ct ≠ s "application/json" then fail "unexpected media type"
     else if acc.isSome then fail "two media types"
     else
-      let sch ← pObj (none : Option Schema) fun k _ => do
+      let sch ← pObj (none : Option Schema) fun k a => do
         if k = s "schema" then do let t ← pSchema; pure (some t)
+        else if k = s "example" ∨ k = s "examples" then do pSkip; pure a
         else fail s!"unknown media type member {String.ofList k}"
       match sch with
       | some t => pure (some t)
@@ -263,6 +287,7 @@ def pOperation : M (Operation Schema) := do
       match r.2 with
       | some sch => pure { o with body := some sch }
       | none => fail "requestBody without content"
+    else if isExtKey k then do pSkip; pure o
     else fail s!"unknown operation member {String.ofList k}"
 
 def pPathItem : M (PathItem Schema) :=
@@ -286,6 +311,7 @@ def pDoc : M (Doc Schema) := do
       let r ← pObj (false, false) fun kk a => do
         if kk = s "title" then do let _ ← pJStr; pure (true, a.2)
         else if kk = s "version" then do let _ ← pJStr; pure (a.1, true)
+        else if isExtKey kk then do pSkip; pure a
         else fail s!"unknown info member {String.ofList kk}"
       if r.1 && r.2 then pure { d with info := true } else fail "info without title/version"
     else if k = s "servers" then do
@@ -309,6 +335,7 @@ def pDoc : M (Doc Schema) := do
             pure (insertKey (name, t) a)
         else fail s!"unknown components member {String.ofList kk}"
       pure { d with schemas := v }
+    else if isExtKey k then do pSkip; pure d
     else fail s!"unknown document member {String.ofList k}"
   if !acc.info then fail "document without info"
   pure { openapi := acc.openapi, dialect := acc.dialect, servers := acc.servers, paths := acc.paths, schemas := acc.schemas }
@@ -440,9 +467,9 @@ def step (line : String) : String :=
       | .ok (off, _) =>
         -- ON and the three flags are the last tokens of the line
         let rev := obs.reverse
-        let flags := (rev.take 6).reverse
-        let t4 := (rev.drop 6).head?.getD ""
-        let t5 := (rev.drop 7).head?.getD ""
+        let flags := (rev.take 7).reverse
+        let t4 := (rev.drop 7).head?.getD ""
+        let t5 := (rev.drop 8).head?.getD ""
         let on : Res :=
           if t5 == "E" then .err t4
           else match t4 with
@@ -452,7 +479,8 @@ def step (line : String) : String :=
             | "X" => .other
             | _ => .unparsed "on"
         match flags with
-        | [mv, rr, stb, vag, srv, cold] =>
+        | [mv, rr, stb, vag, srv, cold, dat] =>
+          let dataIntact := dat == "1"
           let coldStart := cold == "1"
           let validatorAgrees := vag == "1"
           let served := srv == "1"
@@ -501,9 +529,9 @@ def step (line : String) : String :=
                 (match on with | .same => [] | _ => ["validationOn"]))
             | .panic => "panic"
             | _ => ""
-          let detail0 := if miOff then (if miOn then (if validatorAgrees then "ok" else "validator-disagrees") else "on-mismatch") else why
+          let detail0 := if miOff then (if miOn then (if validatorAgrees then (if dataIntact then "ok" else "data-changed") else "validator-disagrees") else "on-mismatch") else why
           let detail := if sOK then detail0 else detail0 ++ " failed:" ++ failing
-          verdict id (miOff && miOn && validatorAgrees) sOK "-" detail
+          verdict id (miOff && miOn && validatorAgrees && dataIntact) sOK "-" detail
         | _ => s!"{id} bad-case flags"
 
 end Rivaas.DriverC07
